@@ -171,6 +171,14 @@ fn items_for(prop: Prop, tier: Tier, f: &mut dyn FnMut(Item)) {
         }
         Prop::C06 => {
             let s = tier.pick(5, 6);
+            // optional-stack-slot shapes of the ascent backend (beyond the size bound)
+            gram::enum_fopt(&mut |g| {
+                for layout in 0..5 {
+                    group += 1;
+                    let dgm = DG { skel: g.clone(), inline: vec![false; g.nts], alts: mark_layout(g, layout), mark_term: None };
+                    f(Item { dg: dgm, tag: format!("fopt-layout{}", layout), group, backends: both.clone(), with_injection: false });
+                }
+            });
             skeletons(s, &mut |g| {
                 let inl = inlinable(g);
                 for layout in 0..5 {
@@ -256,6 +264,13 @@ fn items_for(prop: Prop, tier: Tier, f: &mut dyn FnMut(Item)) {
         }
         Prop::C07 => {
             let s = tier.pick(5, 6);
+            gram::enum_fopt(&mut |g| {
+                for (k, alts) in [rotate_styles(g, 0, false), mark_layout(g, 2), mark_layout(g, 0), mark_layout(g, 4)].into_iter().enumerate() {
+                    group += 1;
+                    let dgm = DG { skel: g.clone(), inline: vec![false; g.nts], alts, mark_term: None };
+                    f(Item { dg: dgm, tag: format!("fopt-kind{}", k), group, backends: both.clone(), with_injection: false });
+                }
+            });
             skeletons(s, &mut |g| {
                 for (k, alts) in [rotate_styles(g, 0, false), rotate_styles(g, 1, true), mark_layout(g, 2), mark_layout(g, 0)].into_iter().enumerate() {
                     group += 1;
@@ -399,7 +414,7 @@ fn process_chunk(ctx: &mut Ctx, prop: Prop, dir: &Path, items: &[Item], n: usize
             }
         }
     }
-    let res = implr::run(&built, &jobs, 10_000);
+    let res = implr::run(&built, &jobs, 60_000);
     if std::env::var("VERIF_KEEP").is_ok() {
         let _ = std::process::Command::new("cp").arg("-r").arg(&bdir).arg(format!("/tmp/keep-{}", std::process::id())).status();
     }
